@@ -13,6 +13,7 @@ import (
 
 	"github.com/talostrading/sonic"
 	"github.com/talostrading/sonic/sonicerrors"
+	"github.com/talostrading/sonic/sonicopts"
 	"golang.org/x/sys/unix"
 
 	"verif/internal/rawpeer"
@@ -85,6 +86,137 @@ func (p *c02Peer) stopDrainer() {
 	}
 }
 
+// c02WrittenThenClosed: bytes accepted by a write reach the peer even if the connection is closed right after the write
+// completed, while most of them still sit in the kernel's send queue (the peer reads slowly). The connection is made
+// with a PRNG-chosen set of the library's socket options (dialed or accepted through a sonic listener); nothing is
+// ever sent to it, so its Close is an orderly one (FIN after the queued data), not a reset.
+func c02WrittenThenClosed(c *vf.Case, w *sim.World) {
+	r := c.Rng
+	var opts []sonicopts.Option
+	var names []string
+	if r.Bool() {
+		opts, names = append(opts, sonicopts.ReuseAddr(true)), append(names, "ReuseAddr")
+	}
+	if r.Bool() {
+		opts, names = append(opts, sonicopts.NoDelay(true)), append(names, "NoDelay")
+	}
+	if r.Chance(1, 3) {
+		opts, names = append(opts, sonicopts.ReusePort(true)), append(names, "ReusePort")
+	}
+	var conn sonic.Conn
+	peer := -1
+	accepted := r.Bool()
+	if accepted {
+		ln, err := sonic.Listen(w.IOC, "tcp", "127.0.0.1:0", append([]sonicopts.Option{sonicopts.Nonblocking(true)}, opts...)...)
+		if err != nil {
+			c.Failf("harness-setup", "Listen with %v: %v", names, err)
+			return
+		}
+		defer ln.Close()
+		sa, err := syscall.Getsockname(ln.RawFd())
+		if err != nil {
+			c.Failf("harness-setup", "getsockname: %v", err)
+			return
+		}
+		peer, _, err = rawpeer.Connect4(sa.(*syscall.SockaddrInet4).Port)
+		if err != nil {
+			c.Failf("harness-setup", "connect: %v", err)
+			return
+		}
+		for i := 0; i < 2000 && conn == nil; i++ {
+			cn, aerr := ln.Accept()
+			if aerr == nil {
+				conn = cn
+			} else {
+				time.Sleep(100 * time.Microsecond)
+			}
+		}
+		if conn == nil {
+			syscall.Close(peer)
+			c.Failf("harness-setup", "the connection never showed up in the listener's backlog")
+			return
+		}
+	} else {
+		lfd, port, err := rawpeer.Listen4()
+		if err != nil {
+			c.Failf("harness-setup", "%v", err)
+			return
+		}
+		defer syscall.Close(lfd)
+		conn, err = sonic.Dial(w.IOC, "tcp", rawpeer.AddrOf(port), opts...)
+		if err != nil {
+			c.Failf("harness-setup", "Dial with %v: %v", names, err)
+			return
+		}
+		peer, _, err = rawpeer.Accept(lfd)
+		if err != nil {
+			conn.Close()
+			c.Failf("harness-setup", "%v", err)
+			return
+		}
+	}
+	defer syscall.Close(peer)
+	total := []int{300000, 1 << 20, 2 << 20}[r.Intn(3)]
+	gen := r.U64()
+	buf := make([]byte, total)
+	vf.GenFill(buf, gen, 0)
+	done, dn := false, 0
+	var derr error
+	conn.AsyncWriteAll(buf, func(err error, n int) { done, derr, dn = true, err, n })
+	got := 0
+	check := func(d []byte) bool {
+		for i := range d {
+			if d[i] != vf.Gen(gen, got+i) {
+				c.Failf("written-then-closed-bytes-differ", "options %v, accepted=%v: byte at stream offset %d received by the peer is not the byte written", names, accepted, got+i)
+				return false
+			}
+		}
+		got += len(d)
+		return true
+	}
+	// the peer reads just enough for the write-all to complete
+	deadline := time.Now().Add(20 * time.Second)
+	for !done && time.Now().Before(deadline) {
+		_, _ = w.IOC.PollOne()
+		if !done {
+			d, _, _ := rawpeer.Drain(peer, 16384)
+			if !check(d) {
+				conn.Close()
+				return
+			}
+		}
+	}
+	if !done || derr != nil || dn != total {
+		conn.Close()
+		c.Failf("written-then-closed-write-failed", "options %v, accepted=%v: AsyncWriteAll(%d) to a reading peer: done=%v err=%v n=%d", names, accepted, total, done, derr, dn)
+		return
+	}
+	queued := total - got
+	_ = conn.Close()
+	// now the peer reads the rest
+	eof := false
+	var rerr error
+	deadline = time.Now().Add(20 * time.Second)
+	for !eof && rerr == nil && time.Now().Before(deadline) {
+		if !rawpeer.WaitReadable(peer, 200) {
+			continue
+		}
+		var d []byte
+		d, eof, rerr = rawpeer.Drain(peer, 1<<30)
+		if !check(d) {
+			return
+		}
+	}
+	c.Logf("written-then-closed: options %v accepted=%v: %d bytes written, %d still queued at Close, peer received %d, eof=%v err=%v", names, accepted, total, queued, got, eof, rerr)
+	c.Count("connections_closed_right_after_a_completed_write", 1)
+	if queued > 0 {
+		c.Count("connections_closed_with_bytes_still_in_the_send_queue", 1)
+	}
+	if got != total {
+		c.Failf("written-then-closed-bytes-lost", "options %v, accepted=%v: the write callback reported %d bytes, %d were still in the send queue when the connection was closed, the peer received %d (end of stream=%v, error=%v)", names, accepted, total, queued, got, eof, rerr)
+	}
+}
+
 func runC02(c *vf.Case) {
 	r := c.Rng
 	w, err := sim.NewWorld(c)
@@ -94,6 +226,12 @@ func runC02(c *vf.Case) {
 	}
 	defer w.Teardown()
 	w.LostCheck = false
+	if c.Index%5 == 4 {
+		c02WrittenThenClosed(c, w)
+		if c.Failed() {
+			return
+		}
+	}
 	kind := []sim.Kind{sim.KConnDialed, sim.KConnAccepted, sim.KAdapter}[r.Intn(3)]
 	small := r.Bool()
 	o, err := w.NewObj(kind, small && kind != sim.KAdapter)
@@ -126,7 +264,8 @@ func runC02(c *vf.Case) {
 	allGE2, wouldblockMidAll, partialReads, partialWrites, errCompletions := 0, 0, 0, 0, 0
 	peerDead := false
 	overlapOps := 0
-	cancelled, viaBB := 0, 0
+	cancelled, viaBB, viaBBSmallRoom := 0, 0, 0
+	var readBB *sonic.ByteBuffer
 	bb := sonic.NewByteBuffer()
 
 	verifyRead := func(api string, buf []byte, all bool, n int, err error) {
@@ -253,17 +392,32 @@ func runC02(c *vf.Case) {
 		} else if r.Chance(1, 5) {
 			// the same read through a ByteBuffer (the way the codecs read): exactly the n reported bytes appear in
 			// its write area, in stream order
-			rb := sonic.NewByteBuffer()
-			rb.Reserve(size)
-			c.Logf("    (through ByteBuffer.AsyncReadFrom)")
+			// One buffer per case, filled read after read without consuming until it is full (what a codec does while a
+			// large item arrives in pieces): the reads find every amount of room, down to a single byte.
+			if readBB == nil || readBB.Reserved() == 0 {
+				readBB = sonic.NewByteBuffer()
+				readBB.Reserve([]int{1, 300, 512, 1000, 5000}[r.Intn(5)])
+			}
+			rb := readBB
+			before := rb.ReadLen()
+			room := rb.Reserved()
+			c.Logf("    (through ByteBuffer.AsyncReadFrom, %d bytes already in the buffer, room for %d)", before, room)
 			rb.AsyncReadFrom(o.FD, func(err error, n int) {
 				if err == nil && rb.WriteLen() != n {
 					c.Failf("bytebuffer-readfrom-count-differs/"+kind.String(), "AsyncReadFrom reported n=%d, the write area holds %d bytes", n, rb.WriteLen())
 				}
+				if err == nil && n > room {
+					c.Failf("bytebuffer-readfrom-count-differs/"+kind.String(), "AsyncReadFrom reported n=%d into a buffer that had room for %d", n, room)
+				}
 				rb.Commit(n)
 				// the ByteBuffer offers its whole capacity to the read, which may be more than was reserved
 				got := make([]byte, max(n, 0))
-				copy(got, rb.Data())
+				if d := rb.Data(); len(d) >= before+len(got) {
+					copy(got, d[before:])
+				}
+				if room < 128 {
+					viaBBSmallRoom++
+				}
 				rdInFlight = false
 				c.Logf("    <- ByteBuffer.AsyncReadFrom err=%v n=%d", err, n)
 				verifyRead("ByteBuffer.AsyncReadFrom", got, false, n, err)
@@ -596,6 +750,7 @@ func runC02(c *vf.Case) {
 	c.Count("operations_started_at_the_dispatch_limit", startedAtLimit)
 	c.Count("operations_cancelled_in_flight", cancelled)
 	c.Count("reads_through_bytebuffer_asyncreadfrom", viaBB)
+	c.Count("reads_through_bytebuffer_asyncreadfrom_with_room_below_128", viaBBSmallRoom)
 	c.Count("all_ops_needing_ge2_wakeups", allGE2)
 	c.Count("wouldblock_mid_writeall", wouldblockMidAll)
 	c.Count("partial_reads", partialReads)
